@@ -13,6 +13,7 @@ import ArrModel.C10
 import ArrModel.C19Pipe
 import ArrModel.C14Ext
 import ArrModel.C15
+import ArrModel.C01Diff
 import Driver.Proto
 /-!
 # Driver.C09 — outcome protocol
@@ -26,6 +27,11 @@ Case lines `C09.<class>.<Trait>.<method> <receiver shape> <tokens…>` (see `har
   argsort (table parser of `parse_kind` and `Sort.sort` / `Sort.argsort` with the text, which must agree), pack_bits /
   unpack_bits (`C19.packBits` / `unpackBits` on the crate's own `apply_along_axis` model), compare (table parser, then the
   broadcasting funnel), norm (table parser of `to_ord`, then `normArr`), convolve (table parser of `to_mode`).
+* `m` lines of `insert(indices, values, Some(axis))` (round 5, part 2): `Arr.insertAxis` of `ArrModel/C01Diff.lean` on the tag
+  arrays of the receiver shape and the values shape.
+* `x`: the same models, but the harness does not claim beforehand that the argument is invalid: the answer is the model's outcome
+  class (`ok` / `err <Variant>` / `panic`) and the real call must fall into the same class (the three-argument relations of
+  `insert` along an axis: number of indices against the rows of the values, values axes that match / divide / do neither).
 * `u`: not modelled — constant `err` (class only);  `o` → `open`;  `n`, `t` → `total`.
 * `p`: `liftR` on an error receiver, provided the regenerated table says the body is the delegation.
 * `opt`: the table-driven parsers;  `inv`: coverage accounting from the regenerated inventory.
@@ -216,6 +222,10 @@ def runForeign (key : String) (s : List Nat) (t : List String) : Option String :
   | "ArrayIndexing.slice", [x, y] => do let x ← parseNat? x; let y ← parseNat? y; some (cls (a.slice x y))
   | "ArrayIndexing.indices_at", [i] => do let i ← parseNatList? i; some (cls (a.indicesAt i))
   | "ArrayTiling.repeat", [r, "none"] => do let r ← parseNatList? r; some (cls (a.repeatFlat r))
+  -- `insert(indices, values, Some(axis))`: the C01 model (`none` as the axis is not a number: falls through to `insertFlat` in `runModel`)
+  | "ArrayManipulate.insert", [i, v, ax] => do
+    let ax ← parseNat? ax; let i ← parseNatList? i; let v ← parseNatList? v
+    some (cls (a.insertAxis 0 i (tagArr v) ax))
   | "ArrayLinalgProducts.vdot", [v] => do let v ← parseNatList? v; some (cls (C14.vdot a (tagArr v)))
   | "ArrayLinalgProducts.inner", [v] => do let v ← parseNatList? v; some (cls (C14.inner a (tagArr v)))
   | "ArrayLinalgProducts.dot", [v] => do let v ← parseNatList? v; some (cls (C14.dotFull a (tagArr v)))
@@ -299,6 +309,7 @@ def handleBase (parts : List String) (args : List String) : Option String :=
   | ["C09", "p", tr, m], [_, e] => propagate (tr ++ "." ++ m) e
   | ["C09", "ea", tr, m], _ :: e :: _ => propagate (tr ++ "." ++ m) e
   | ["C09", "m", tr, m], s :: t => do let s ← parseNatList? s; runModelAll (tr ++ "." ++ m) s t
+  | ["C09", "x", tr, m], s :: t => do let s ← parseNatList? s; runModelAll (tr ++ "." ++ m) s t
   | ["C09", "b", _, _], s :: t => do let s ← parseNatList? s; some (runBroadcast s t)
   | ["C09", "u", _, _], _ => some "err class-only"
   | ["C09", "o", _, _], _ => some "open"
